@@ -579,18 +579,16 @@ class DeepDiff(ResultDict, SerializationMixin, DistanceMixin, DeepDiffProtocol, 
         """
         result = dict_()
         for key in keys:
-            if self.ignore_string_type_changes and isinstance(key, bytes):
-                clean_key = key.decode('utf-8')
-            elif self.use_enum_value and isinstance(key, Enum):
-                clean_key = key.value
-            elif isinstance(key, numbers) and self.significant_digits is not None:
+            # an Enum key stands for its value, which is then cleaned like any other key
+            clean_key = key.value if self.use_enum_value and isinstance(key, Enum) else key
+            if self.ignore_string_type_changes and isinstance(clean_key, bytes):
+                clean_key = clean_key.decode('utf-8')
+            elif isinstance(clean_key, numbers) and self.significant_digits is not None:
                 # without significant digits (and so without ignore_numeric_type_changes) a number key stays as it is
-                type_ = "number" if self.ignore_numeric_type_changes else key.__class__.__name__
-                clean_key = self.number_to_string(key, significant_digits=self.significant_digits,
+                type_ = "number" if self.ignore_numeric_type_changes else clean_key.__class__.__name__
+                clean_key = self.number_to_string(clean_key, significant_digits=self.significant_digits,
                                                   number_format_notation=self.number_format_notation)
                 clean_key = KEY_TO_VAL_STR.format(type_, clean_key)
-            else:
-                clean_key = key
             if self.ignore_string_case and isinstance(clean_key, str):
                 clean_key = clean_key.lower()
             if clean_key in result:
